@@ -180,6 +180,17 @@ def stopReaches : List Call → List Obs → Bool
 def cStopReaches (i : Input) (t : Trace) : Bool :=
   !(inScope i && i.shape.noStream) || stopReaches i.hist t.obs
 
+/-- `stop()` on the object reported to makes its `shouldStop` read true — on every graph: through old-flavour results
+(the adapter's reading) and on a stream pipeline, where `stop()` is the `ExtendedToStreamDecorator`'s own
+(`TestControl`): it is what suites consult, and it does not go on to the results behind the stream -/
+def stopSets : List Call → List Obs → Bool
+  | [], [] => true
+  | c :: h, o :: os => (!(c == .stop) || o.ss) && stopSets h os
+  | _, _ => false
+
+def cStopSets (i : Input) (t : Trace) : Bool :=
+  !inScopeA i || stopSets i.hist t.obs
+
 /-! ### every result by itself: its own fail-fast setting survives whatever wrappers do -/
 /- `failfast` as a freshly built object reads it: a `MultiTestResult` reads its first target's, an
 `ExtendedToOriginalDecorator` its target's (its own flag, initially false, if the target has none), a
@@ -217,7 +228,7 @@ def ffRead? (s : Shape) : Option Bool := if (caps s).failfast then some (ffRead 
 
 /-- without assignments through the wrappers, `failfast` reads the same from construction on and after every call -/
 def cFailfastRead (i : Input) (t : Trace) : Bool :=
-  !(inScopeA i && i.shape.noStream && noAssign i.hist) ||
+  !(inScopeA i && noAssign i.hist) ||
   (t.ff0 == ffRead? i.shape && t.obs.all (·.ff == ffRead? i.shape))
 
 /-- no assignment of `failfast` through a wrapper: every result keeps the setting it was built with, after every call -/
@@ -275,33 +286,10 @@ def cExit (i : Input) (t : Trace) : Bool :=
       code == (if ks.any Kind.bad then 1 else 0) && out == .running :: (tallyOf {} 0 (dispatched ff ks)).summary
   | _, _ => false
 
-/-! ### known finding -/
-mutual
-/-- a `MultiTestResult` with a target that has no `shouldStop` (Twisted flavour).  `MultiTestResult.shouldStop` asks every
-target adapter through `__getattr__("shouldStop")` — calling the fallback hook directly, which skips the
-`ExtendedToOriginalDecorator`'s own `shouldStop` property (the one that falls back to the adapter's flag) and goes
-straight to the decorated result: reading `shouldStop` raises `AttributeError` (and, read through a further
-`ExtendedToOriginalDecorator`, whose `getattr` default swallows that error, reads false after `stop()`).  The model has
-the intended reading (the adapter's property); the code cannot be followed there. -/
-def multiOverStopless : Shape → Bool
-  | .multi cs => stoplessTarget cs || multiOverStoplessL cs
-  | .etod c | .deco c | .tagger _ _ c | .tfr c | .e2s c => multiOverStopless c
-  | _ => false
-def multiOverStoplessL : List Shape → Bool
-  | [] => false
-  | c :: cs => multiOverStopless c || multiOverStoplessL cs
-def stoplessTarget : List Shape → Bool
-  | [] => false
-  | .etod c :: cs => !(caps c).shouldStop || stoplessTarget cs
-  | _ :: cs => stoplessTarget cs
-end
-
-def multiNoShouldStop (i : Input) : Bool := multiOverStopless i.shape
-
 def clauses : List (String × (Input → Trace → Bool)) :=
   [("verdict", cVerdict), ("text-summary", cText), ("failfast-kept", cFailfastKept),
    ("failfast-stops", cFailfastStops), ("stop-sticky", cSticky), ("not-earlier", cNotEarlier),
-   ("stop-reaches", cStopReaches), ("failfast-read", cFailfastRead), ("leaf-failfast-kept", cLeafKept), ("leaf-stops", cLeafStops),
+   ("stop-reaches", cStopReaches), ("stop-sets", cStopSets), ("failfast-read", cFailfastRead), ("leaf-failfast-kept", cLeafKept), ("leaf-stops", cLeafStops),
    ("exit-status", cExit)]
 
 def holds (i : Input) (t : Trace) : Bool := clauses.all fun c => c.2 i t
